@@ -32,11 +32,25 @@ CHECKS["C06"] = dict(
     note=LEVEL_NOTE_COMMON,
     engine="lean+hhdrv")
 
+CHECKS["C01"] = dict(
+    technique="Lean 4 theorems over an event-kernel model on the abstract keyed priority queue (invariant by induction over operation "
+              "histories) + regenerated ordering function + observable-log differential correspondence with src/cmb_event.c",
+    text="Props/C01.lean: heap_order_check as re-extracted from the C AST is proved to be the documented (time asc, priority desc, handle "
+         "asc) order; over the event-kernel model: dispatch returns THE lexicographic minimum, sets clock and current event, the clock is "
+         "monotone over every operation history, every issued handle is in exactly one of pending/executed/cancelled (exactly-once, cancelled "
+         "never runs), reschedule/reprioritise change only that field of that event, clock/current stable during an action, pattern "
+         "find/count/cancel agree with the pending set. The model is tied to the code by diffing complete observable logs of generated "
+         "scripts whose operations are issued from outside and from inside running actions; the concrete hashheap is covered by C02.",
+    design_ref="DESIGN.md §3.3, §4 C01",
+    note=LEVEL_NOTE_COMMON + "C01: event times are integers (|t| < 2^53) so double arithmetic is exact; NaN/inf times excluded.",
+    engine="lean+evdrv")
+
 PENDING = {
 }
 
 ENGINES = [
     dict(name="lean", path="lean/", serves_properties=[], kind_free_text="Lean 4 project CimbaModel: models, monitors, property theorems (Props/Cnn.lean), compiled model drivers"),
     dict(name="translators", path="tools/c2lean.py", serves_properties=[], kind_free_text="T-gen: clang JSON AST -> Lean definitions, regenerated on every run into lean/CimbaModel/Generated/"),
+    dict(name="evdrv", path="harness/evdrv.c", serves_properties=["C01"], kind_free_text="C driver for the event-kernel script language (ops from outside and inside actions), observable log"),
     dict(name="hhdrv", path="harness/hhdrv.c", serves_properties=["C02", "C06"], kind_free_text="C driver for exact-state correspondence of cmi_hashheap.c with the Lean model"),
 ]
